@@ -58,8 +58,8 @@ def _recipes():
     `{C}` in a key template is replaced by the class of the operand's format."""
     R = {}
 
-    def add(name, op, impl, ref, n=1, approx=False, square=True, fmts=("coo", "gcxs", "dok"), kinds=None, vec=False):
-        R[name] = dict(op=op, impl=impl, ref=ref, n=n, approx=approx, square=square, fmts=fmts, kinds=kinds, vec=vec)
+    def add(name, op, impl, ref, n=1, approx=False, fmts=("coo", "gcxs", "dok"), kinds=None, vec=False, pat="default"):
+        R[name] = dict(op=op, impl=impl, ref=ref, n=n, approx=approx, fmts=fmts, kinds=kinds, vec=vec, pat=pat)
 
     E = "umath.elemwise"
     # ---- element-wise: ufuncs, operators, wrappers (Computes)
@@ -102,7 +102,7 @@ def _recipes():
     add("m_imag", "SparseArray.imag", lambda S, np, x, y, f: x.imag, lambda np, a, b, f: a.imag)
     add("m_conj", "SparseArray.conj", lambda S, np, x, y, f: x.conj(), lambda np, a, b, f: a.conj())
     add("astype", "common.astype", lambda S, np, x, y, f: S.astype(x, np.float32), lambda np, a, b, f: a.astype(np.float32))
-    add("m_astype", "SparseArray.astype", lambda S, np, x, y, f: x.astype(np.complex128), lambda np, a, b, f: a.astype(np.complex128))
+    add("m_astype", "SparseArray.astype", lambda S, np, x, y, f: x.astype(np.float16), lambda np, a, b, f: a.astype(np.float16))
     add("clip", "coo_common.clip", lambda S, np, x, y, f: S.clip(x, 1, 4), lambda np, a, b, f: np.clip(a, 1, 4))
     add("m_clip", "SparseArray.clip", lambda S, np, x, y, f: x.clip(2, None), lambda np, a, b, f: np.clip(a, 2, None))
     add("where3", "coo_common.where", lambda S, np, x, y, f: S.where(x > 1, x, y), lambda np, a, b, f: np.where(a > 1, a, b), n=2)
@@ -128,7 +128,14 @@ def _recipes():
         for ax, tag in ((None, "all"), (0, "ax0"), (1, "ax1")):
             add(f"{r}_{tag}", "coo_common." + r, (lambda r, ax: lambda S, np, x, y, f: getattr(S, r)(x, axis=ax))(r, ax),
                 (lambda r, ax: lambda np, a, b, f: getattr(np, r)(a, axis=ax))(r, ax))
-    add("vecdot", "common.vecdot", lambda S, np, x, y, f: S.vecdot(x, y), lambda np, a, b, f: np.sum(a * b, axis=-1), n=2)
+    add("vecdot", "common.vecdot", lambda S, np, x, y, f: S.vecdot(x, y), lambda np, a, b, f: np.vecdot(a, b), n=2)
+    # a COMPLETE group (row 0 fully stored): the fill correction of the reduction multiplies the fill by zero
+    add("sum_ax1_full", "common.sum", lambda S, np, x, y, f: S.sum(x, axis=1), lambda np, a, b, f: np.sum(a, axis=1), approx=True, pat="rowfull")
+    add("m_sum_full", "SparseArray.sum", lambda S, np, x, y, f: x.sum(axis=1), lambda np, a, b, f: a.sum(axis=1), approx=True, pat="rowfull")
+    add("mean_ax1_full", "common.mean", lambda S, np, x, y, f: S.mean(x, axis=1), lambda np, a, b, f: np.mean(a, axis=1), approx=True, pat="rowfull")
+    add("prod_ax1_full", "common.prod", lambda S, np, x, y, f: S.prod(x, axis=1), lambda np, a, b, f: np.prod(a, axis=1), approx=True, pat="rowfull")
+    add("max_ax1_full", "common.max", lambda S, np, x, y, f: S.max(x, axis=1), lambda np, a, b, f: np.max(a, axis=1), pat="rowfull")
+    add("nansum_ax1_full", "coo_common.nansum", lambda S, np, x, y, f: S.nansum(x, axis=1), lambda np, a, b, f: np.nansum(a, axis=1), approx=True, pat="rowfull")
     add("outer", "common.outer", lambda S, np, x, y, f: S.outer(x, y), lambda np, a, b, f: np.multiply.outer(a.ravel(), b.ravel()), n=2)
     # ---- zero-fill-only operations
     add("dot", "common.dot", lambda S, np, x, y, f: S.dot(x, y), lambda np, a, b, f: np.dot(a, b), n=2)
@@ -270,38 +277,43 @@ def _npz_roundtrip(S, np, x, y, f):
     return S.load_npz(buf)
 
 
-# coercion / mix probes: name -> (impl, ref, kind).  kind: 'coerce' (goes through __array__),
-# 'mix_full' (dense operand has the full shape), 'mix_small_const' (f(fill, ndarray) constant), 'mix_small_var' (not
-# constant, smaller shape), 'scalar' (float(x) of a 0-d array), 'scalar_bad' (float(x) of a larger array), 'stays_sparse'
+# coercion / mix / scalar probes.  kind 0: implicit coercion through __array__; 1: a NumPy function without sparse
+# counterpart; 2: an element-wise call (mix = the dense operand, or None); 3: scalar conversion (sel = the sub-array)
 def _probes():
     P = {}
-    P["np_asarray"] = (lambda S, np, x, f: np.asarray(x), lambda np, a, f: a, "coerce")
-    P["np_array"] = (lambda S, np, x, f: np.array(x), lambda np, a, f: a, "coerce")
-    P["np_asarray_dtype"] = (lambda S, np, x, f: np.asarray(x, dtype=np.float64), lambda np, a, f: a.astype(np.float64), "coerce")
-    P["array_dunder"] = (lambda S, np, x, f: x.__array__(), lambda np, a, f: a, "coerce")
-    P["np_stack_dense"] = (lambda S, np, x, f: np.array([x, x]), lambda np, a, f: np.array([a, a]), "coerce")
-    P["list_of_x"] = (lambda S, np, x, f: np.asarray([x]), lambda np, a, f: np.asarray([a]), "coerce")
-    P["np_linalg_norm"] = (lambda S, np, x, f: np.linalg.norm(x), lambda np, a, f: np.linalg.norm(a), "coerce_or_typeerror")
-    P["add_dense_full"] = (lambda S, np, x, f: x + np.arange(9.0).reshape(3, 3), lambda np, a, f: a + np.arange(9.0).reshape(3, 3), "mix_full")
-    P["radd_dense_full"] = (lambda S, np, x, f: np.arange(9.0).reshape(3, 3) + x, lambda np, a, f: np.arange(9.0).reshape(3, 3) + a, "mix_full")
-    P["mul_dense_full"] = (lambda S, np, x, f: x * np.arange(9.0).reshape(3, 3), lambda np, a, f: a * np.arange(9.0).reshape(3, 3), "mix_full_mul")
-    P["add_dense_small_var"] = (lambda S, np, x, f: x + np.arange(3.0), lambda np, a, f: a + np.arange(3.0), "mix_small_var")
-    P["mul_dense_small_var"] = (lambda S, np, x, f: x * np.arange(3.0), lambda np, a, f: a * np.arange(3.0), "mix_small_var_mul")
-    P["add_dense_small_const"] = (lambda S, np, x, f: x + np.ones(3), lambda np, a, f: a + np.ones(3), "mix_small_const")
-    P["add_dense_bigger"] = (lambda S, np, x, f: x + np.arange(18.0).reshape(2, 3, 3), lambda np, a, f: a + np.arange(18.0).reshape(2, 3, 3), "mix_bigger")
-    P["np_sin"] = (lambda S, np, x, f: np.sin(x), lambda np, a, f: np.sin(a), "stays_sparse")
-    P["np_cos"] = (lambda S, np, x, f: np.cos(x), lambda np, a, f: np.cos(a), "stays_sparse")
-    P["add_one"] = (lambda S, np, x, f: x + 1, lambda np, a, f: a + 1, "stays_sparse")
-    P["float_0d"] = (lambda S, np, x, f: float(x[0, 1]) if False else float(x[0:1, 1:2].reshape(())), lambda np, a, f: float(a[0, 1]), "scalar")
-    P["float_0d_unstored"] = (lambda S, np, x, f: float(x[0:1, 2:3].reshape(())), lambda np, a, f: float(a[0, 2]), "scalar")
-    P["bool_0d"] = (lambda S, np, x, f: bool(x[0:1, 1:2].reshape(())), lambda np, a, f: bool(a[0, 1]), "scalar")
-    P["float_2d"] = (lambda S, np, x, f: float(x), lambda np, a, f: None, "scalar_bad")
-    P["int_1elem_2d"] = (lambda S, np, x, f: int(x[0:1, 1:2]), lambda np, a, f: None, "scalar_bad")
+
+    def add(name, kind, impl, ref, mix=None, op=None, sel=None):
+        P[name] = dict(kind=kind, impl=impl, ref=ref, mix=mix, op=op, sel=sel)
+
+    add("np_asarray", 0, lambda S, np, x, f: np.asarray(x), lambda np, a, f: a)
+    add("np_array", 0, lambda S, np, x, f: np.array(x), lambda np, a, f: a)
+    add("np_asarray_dtype", 0, lambda S, np, x, f: np.asarray(x, dtype=np.float64), lambda np, a, f: a.astype(np.float64))
+    add("array_dunder", 0, lambda S, np, x, f: x.__array__(), lambda np, a, f: a)
+    add("np_array_of_two", 0, lambda S, np, x, f: np.array([x, x]), lambda np, a, f: np.array([a, a]))
+    add("np_asarray_list", 0, lambda S, np, x, f: np.asarray([x]), lambda np, a, f: np.asarray([a]))
+    add("np_linalg_norm", 1, lambda S, np, x, f: np.linalg.norm(x), lambda np, a, f: np.linalg.norm(a))
+    full = lambda np: np.arange(9.0).reshape(3, 3)      # noqa: E731
+    row = lambda np: np.arange(3.0)                      # noqa: E731
+    ones = lambda np: np.ones(3)                         # noqa: E731
+    big = lambda np: np.arange(18.0).reshape(2, 3, 3)    # noqa: E731
+    add("add_dense_full", 2, lambda S, np, x, f: x + full(np), lambda np, a, f: a + full(np), mix=full, op="add")
+    add("radd_dense_full", 2, lambda S, np, x, f: full(np) + x, lambda np, a, f: full(np) + a, mix=full, op="add")
+    add("mul_dense_full", 2, lambda S, np, x, f: x * full(np), lambda np, a, f: a * full(np), mix=full, op="multiply")
+    add("add_dense_row", 2, lambda S, np, x, f: x + row(np), lambda np, a, f: a + row(np), mix=row, op="add")
+    add("mul_dense_row", 2, lambda S, np, x, f: x * row(np), lambda np, a, f: a * row(np), mix=row, op="multiply")
+    add("add_dense_row_const", 2, lambda S, np, x, f: x + ones(np), lambda np, a, f: a + ones(np), mix=ones, op="add")
+    add("add_dense_bigger", 2, lambda S, np, x, f: x + big(np), lambda np, a, f: a + big(np), mix=big, op="add")
+    add("maximum_dense_row", 2, lambda S, np, x, f: np.maximum(x, row(np)), lambda np, a, f: np.maximum(a, row(np)), mix=row, op="maximum")
+    add("np_sin", 2, lambda S, np, x, f: np.sin(x), lambda np, a, f: np.sin(a))
+    add("np_cos", 2, lambda S, np, x, f: np.cos(x), lambda np, a, f: np.cos(a))
+    add("add_one", 2, lambda S, np, x, f: x + 1, lambda np, a, f: a + 1)
+    add("float_0d", 3, lambda S, np, x, f: float(x[0:1, 1:2].reshape(())), lambda np, a, f: float(a[0, 1]), sel=(1, []))
+    add("float_0d_unstored", 3, lambda S, np, x, f: float(x[0:1, 2:3].reshape(())), lambda np, a, f: float(a[0, 2]), sel=(1, []))
+    add("bool_0d", 3, lambda S, np, x, f: bool(x[0:1, 1:2].reshape(())), lambda np, a, f: bool(a[0, 1]), sel=(1, []))
+    add("float_2d", 3, lambda S, np, x, f: float(x), lambda np, a, f: None, sel=(9, [3, 3]))
+    add("int_1elem_2d", 3, lambda S, np, x, f: int(x[0:1, 1:2]), lambda np, a, f: None, sel=(1, [1, 1]))
+    add("int_1elem_1d", 3, lambda S, np, x, f: int(x[0, 1:2]), lambda np, a, f: None, sel=(1, [1]))
     return P
-
-
-PROBE_KIND_CODE = {"coerce": 0, "coerce_or_typeerror": 1, "mix_full": 2, "mix_full_mul": 3, "mix_small_var": 4,
-                   "mix_small_var_mul": 5, "mix_small_const": 6, "mix_bigger": 7, "stays_sparse": 8, "scalar": 9, "scalar_bad": 10}
 
 
 # ------------------------------------------------------------------------------------------ worker side
@@ -314,22 +326,24 @@ def _fillval(np, code):
     return np.float64(float(txt))
 
 
-def _operand(np, sparse, code, which, fmt, vec=False):
+def _operand(np, sparse, code, which, fmt, vec=False, pat="default"):
     """dense array with a few entries different from the fill, and its sparse form in the given format"""
     f = _fillval(np, code)
     dt = np.dtype(FILLS[code][0])
     if vec:
-        pat = {"x": [(1,), (2,)], "y": [(0,), (2,)]}[which]
+        pos = {"x": [(1,), (2,)], "y": [(0,), (2,)]}[which]
         vals = {"x": [1, 2], "y": [7, 5]}[which]
         d = np.full((4,), f, dtype=dt)
     else:
-        pat = {"x": [(0, 0), (0, 1), (1, 2), (2, 0)], "y": [(0, 2), (1, 0), (2, 1), (2, 2)]}[which]
+        pos = {"x": [(0, 0), (0, 1), (1, 2), (2, 0)], "y": [(0, 2), (1, 0), (2, 1), (2, 2)]}[which]
         vals = {"x": [4, 1, 2, 5], "y": [7, 1, 2, 6]}[which]
+        if pat == "rowfull":
+            pos, vals = [(0, 0), (0, 1), (0, 2), (1, 2), (2, 0)], [4, 1, 2, 2, 5]
         d = np.full((3, 3), f, dtype=dt)
-    for p, v in zip(pat, vals, strict=True):
+    for p, v in zip(pos, vals, strict=True):
         d[p] = (not bool(f)) if dt == np.bool_ else v
     x = sparse.COO.from_numpy(d, fill_value=f)
-    assert x.nnz == len(pat) and (x.fill_value == f or (f != f and x.fill_value != x.fill_value))
+    assert x.nnz == len(pos) and (x.fill_value == f or (f != f and x.fill_value != x.fill_value))
     if fmt == "gcxs":
         x = sparse.GCXS.from_coo(x)
     elif fmt == "dok":
@@ -413,8 +427,10 @@ def impl_case(case):
     warnings.filterwarnings("ignore")
     np.seterr(all="ignore")
     _check_auto(case)
+    if "probe" in case:
+        return impl_probe(case)
     rec = RECIPES[case["recipe"]]
-    da, x, f = _operand(np, sparse, case["fill"], "x", case["fmt"], rec["vec"])
+    da, x, f = _operand(np, sparse, case["fill"], "x", case["fmt"], rec["vec"], rec["pat"])
     db = y = None
     if rec["n"] == 2:
         db, y, _f2 = _operand(np, sparse, case["fill2"], "y", case["fmt2"], rec["vec"])
@@ -428,7 +444,8 @@ def impl_case(case):
     except Exception as ex:  # noqa: BLE001
         out.update(out=_classify_exc(ex), exc=type(ex).__name__, msg=str(ex)[:120])
         if exp[0] == "refexc":
-            out["ref_exc"] = exp[1]
+            # NumPy rejects these operands too (e.g. `-` on booleans): outside the operation's domain
+            out.update(out="unsupported", ref_exc=exp[1])
         return out
     got = _norm(np, r)
     if exp[0] == "refexc":
@@ -461,16 +478,25 @@ def impl_probe(case):
     warnings.filterwarnings("ignore")
     np.seterr(all="ignore")
     _check_auto(case)
-    impl, ref, _kind = PROBES[case["probe"]]
+    pr = PROBES[case["probe"]]
     da, x, f = _operand(np, sparse, case["fill"], "x", case["fmt"])
-    out = {}
+    out = {"const": True, "shape": [3, 3], "nshape": [], "size": 9}
+    if pr["mix"] is not None:
+        # the inputs of the dense-mix rule, computed with NumPy: is func(fill, ndarray) a constant array?
+        nd = pr["mix"](np)
+        fa = np.atleast_1d(getattr(np, pr["op"])(f, nd))
+        first = fa.reshape(-1)[0]
+        out["const"] = bool(((fa == first) | ((fa != fa) & (first != first))).all())
+        out["nshape"] = [int(d) for d in nd.shape]
+        out["shape"] = [int(d) for d in np.broadcast_shapes((3, 3), nd.shape)]
+    if pr["sel"] is not None:
+        out["size"], out["shape"] = pr["sel"][0], list(pr["sel"][1])
     try:
-        e = ref(np, da, f)
-        exp = _norm(np, e)
+        exp = _norm(np, pr["ref"](np, da, f))
     except Exception as ex:  # noqa: BLE001
         exp = ("refexc", type(ex).__name__)
     try:
-        r = impl(sparse, np, x, f)
+        r = pr["impl"](sparse, np, x, f)
     except Exception as ex:  # noqa: BLE001
         out.update(out=_classify_exc(ex), exc=type(ex).__name__, msg=str(ex)[:120], dense=False)
         return out
@@ -517,11 +543,17 @@ def build_cases(tier, seed, ops):
     rng = random.Random(seed)
     fills = ["z", "nz", "3", "nan", "pinf", "ninf", "iz", "i3", "F", "T"]
     cases = []
+    skipped = []
     for name, rec in RECIPES.items():
         for fmt in rec["fmts"]:
             key = rec["op"].replace("{C}", FMT_CLASS[fmt])
             if key not in ops and "{C}" in rec["op"]:
                 key = rec["op"].replace("{C}", "SparseArray")
+            if key not in ops:
+                skipped.append(f"{name}/{fmt}")       # the class has no such method: nothing to call
+                continue
+            others = [g for g in ("coo", "gcxs", "dok") if g != fmt]
+            cross = rng.choice(others)
             for code in fills:
                 if not fill_ok_for(rec, code):
                     continue
@@ -535,13 +567,19 @@ def build_cases(tier, seed, ops):
                         combos.append((code, "3" if code != "3" else "pinf", fmt))
                         if code == "z":
                             combos.append((code, "nz", fmt))
-                    if tier == "thorough" or rng.random() < 0.34:
-                        other = rng.choice([g for g in ("coo", "gcxs", "dok") if g != fmt])
-                        combos.append((code, code, other))
+                    # the second operand in another format (always for the zero baselines)
+                    if tier == "thorough":
+                        combos += [(code, code, g) for g in others]
+                    elif code == base or rng.random() < 0.34:
+                        combos.append((code, code, cross))
                     combos = [c for i, c in enumerate(combos) if c not in combos[:i]]
                 for (c1, c2, fmt2) in combos:
                     cases.append(dict(recipe=name, op=key, fill=c1, fill2=c2, fmt=fmt, fmt2=fmt2))
-    return cases
+    return cases, skipped
+
+
+def is_baseline(c):
+    return c["fill"] == FILLS[c["fill"]][2] and (c["fill2"] is None or c["fill2"] == c["fill"])
 
 
 def build_probes():
@@ -576,11 +614,7 @@ def out_class(r):
         return "hang"
     if "out" in r:
         return r["out"]
-    if "crash" in r:
-        return "other"
-    if "exc" in r:       # the worker itself failed (harness problem): surfaces as 'other'
-        return "other"
-    return "other"
+    return "other"          # crash / the worker function itself failed (harness problem): surfaces as 'other'
 
 
 def coq_str(s):
@@ -588,13 +622,13 @@ def coq_str(s):
 
 
 CLAUSES = {"coo_common.diagonal": "D5_diagonal_nonzero_fill", "coo_common.diagonalize": "D14_diagonalize_nonzero_fill"}
+D23_RECIPES = {"sum_ax1_full", "m_sum_full", "mean_ax1_full", "nansum_ax1_full", "vecdot"}
 CODE_TEXT = {
     1: "operation has no required policy / is missing from the generated table",
     2: "SILENTLY WRONG: a result that differs from NumPy on the densified operands",
-    3: "the generated guards demand ValueError but the implementation returned a result",
+    3: "the generated guards demand ValueError but the implementation returned a (correct) result",
     4: "unexpected exception class (neither a correct result nor ValueError)",
     5: "hang",
-    6: "zero fill (guards pass in the model) but the implementation raised ValueError although NumPy succeeds",
     7: "RuntimeError (implicit densification refused) inside a public operation",
     11: "probe: implicit coercion must raise RuntimeError when auto-densify is off",
     12: "probe: implicit coercion with auto-densify on must give the dense array",
@@ -602,55 +636,68 @@ CODE_TEXT = {
     14: "probe: scalar conversion disagrees with the generated _to_scalar rule",
     15: "probe: result silently wrong",
 }
+CLAUSE_OF_CODE = {1: "unclassified_operation", 2: "silently_wrong", 3: "guard_not_effective", 4: "unexpected_exception",
+                  5: "hang", 7: "runtimeerror_in_operation", 11: "coercion_not_refused", 12: "auto_densify_wrong",
+                  13: "dense_mix_rule", 14: "to_scalar_rule", 15: "probe_silently_wrong"}
+IMPORTS = "From Coq Require Import String.\nFrom Verif Require Import C07Judge.\nOpen Scope string_scope."
+
+
+def clause_for(code, c, r):
+    if code == 2:
+        if c["op"] in CLAUSES:
+            return CLAUSES[c["op"]]
+        if c["recipe"] in D23_RECIPES and {c["fill"], c["fill2"]} & {"nan", "pinf", "ninf"}:
+            return "D23_sum_nonfinite_fill_complete_group"
+    return CLAUSE_OF_CODE.get(code, "other") + ":" + c["op"]
 
 
 def campaign(build, tier, seed, report, budget=1):
     viol = []
     ops = table_ops()
-    cases = build_cases(tier, seed, ops)
+    cases, skipped = build_cases(tier, seed, ops)
     probes = build_probes()
-    gens = {}
-    for auto in (False, True):
-        gens[auto] = run_generation(auto, cases, probes)
-    # ---- baselines: the same (recipe, formats) with the dtype's zero fill in the same generation
+    # AUTO_DENSIFY is read by SparseArray.__array__ only (checked by the site extractor), so the quick tier repeats
+    # a third of the matrix in the second interpreter generation; the probes run in full in both
+    sub = {"z", "iz", "F", "3", "nan", "T"}
+    gen_cases = {False: cases,
+                 True: cases if tier == "thorough" else [c for c in cases if c["fill"] in sub and (c["fill2"] in sub or c["fill2"] is None)]}
+    gens = {auto: run_generation(auto, gen_cases[auto], probes) for auto in (False, True)}
     lits, meta = [], []
     hist = {}
     not_exercised = {}
+    harness_failures = []
     for auto in (False, True):
         res, _ = gens[auto]
+        cs = gen_cases[auto]
         base = {}
-        for c, r in zip(cases, res, strict=True):
-            if c["fill"] == FILLS[c["fill"]][2] and (c["fill2"] is None or c["fill2"] == c["fill"]):
+        for c, r in zip(cs, res, strict=True):
+            if r is not None and "out" not in r and not r.get("hang"):
+                harness_failures.append({"case": c, "res": r})
+            if is_baseline(c):
                 base[(c["recipe"], c["fmt"], c["fmt2"], FILLS[c["fill"]][0])] = out_class(r)
-        for i, (c, r) in enumerate(zip(cases, res, strict=True)):
+        for i, (c, r) in enumerate(zip(cs, res, strict=True)):
             oc = out_class(r)
-            b = base.get((c["recipe"], c["fmt"], c["fmt2"] if (c["recipe"], c["fmt"], c["fmt2"], FILLS[c["fill"]][0]) in base
-                          else c["fmt"], FILLS[c["fill"]][0]))
+            b = base.get((c["recipe"], c["fmt"], c["fmt2"], FILLS[c["fill"]][0]))
             if b is None:
                 b = base.get((c["recipe"], c["fmt"], c["fmt"], FILLS[c["fill"]][0]), "right")
-            if b != "right":
-                # the operation does not work for this format/dtype even with a zero fill: not a fill matter
-                not_exercised[(c["recipe"], c["fmt"], FILLS[c["fill"]][0])] = b
-                oc_eff = "unsupported"
-            else:
-                oc_eff = oc
+            if b != "right" and oc != "wrong":
+                # the operation does not work for this format / dtype even with a zero fill: not a fill matter
+                not_exercised[(c["recipe"], c["fmt"] + ("/" + c["fmt2"] if c["fmt2"] and c["fmt2"] != c["fmt"] else ""),
+                               FILLS[c["fill"]][0])] = b
+                oc = "unsupported"
             toks = [FILLS[c["fill"]][3]] + ([FILLS[c["fill2"]][3]] if c["fill2"] is not None else [])
             kind = 1 if RECIPES[c["recipe"]]["kinds"] == "where1" else 0
-            lits.append(vpair(coq_str(c["op"]), vZ(kind), vlist(toks), vZ(OUT_CODE[oc_eff])))
+            lits.append(vpair(coq_str(c["op"]), vZ(kind), vlist(toks), vZ(OUT_CODE[oc])))
             meta.append((auto, i))
-            hist[(c["op"], oc_eff)] = hist.get((c["op"], oc_eff), 0) + 1
-    codes = build.judge("c07_matrix", "From Verif Require Import C07Judge.", "matrix_case", "judge_matrix", lits)
+            hist[(c["op"], oc)] = hist.get((c["op"], oc), 0) + 1
+    codes = build.judge("c07_matrix", IMPORTS, "matrix_case", "judge_matrix", lits)
     for k, code in codes:
         auto, i = meta[k]
-        c, r = cases[i], gens[auto][0][i]
-        clause = CLAUSES.get(c["op"]) if code == 2 else None
-        if clause is None:
-            clause = {2: "silently_wrong", 3: "guard_not_effective", 4: "unexpected_exception", 5: "hang", 6: "zero_fill_rejected",
-                      7: "runtimeerror_in_operation", 1: "unclassified_operation"}.get(code, "other") + ":" + c["op"]
-        viol.append({"property": "C07", "op": c["op"], "kind": "representation" if code in (1,) else "value",
-                     "clause": clause, "what": CODE_TEXT.get(code, str(code)),
-                     "case": dict(c, auto=auto), "impl": {k2: v for k2, v in (r or {}).items()},
-                     "replay_py": replay_line(c, auto)})
+        c, r = gen_cases[auto][i], gens[auto][0][i]
+        viol.append({"property": "C07", "op": c["op"], "kind": "representation" if code == 1 else "value",
+                     "clause": clause_for(code, c, r), "what": CODE_TEXT.get(code, str(code)),
+                     "case": dict(c, auto=auto), "impl": dict(r or {}), "replay_py": replay_line(c, auto)})
+    must_raise = len(lits) - len(build.judge("c07_tags", IMPORTS, "matrix_case", "tag_matrix", lits))
     # ---- probes
     plits, pmeta = [], []
     phist = {}
@@ -658,51 +705,59 @@ def campaign(build, tier, seed, report, budget=1):
         _, pres = gens[auto]
         for i, (c, r) in enumerate(zip(probes, pres, strict=True)):
             oc = out_class(r)
-            kind = PROBES[c["probe"]][2]
-            plits.append(vpair(vZ(PROBE_KIND_CODE[kind]), vbool(auto), vZ(FILLS[c["fill"]][3]), vZ(OUT_CODE[oc]),
-                               vbool(bool((r or {}).get("dense")))))
+            r = r or {}
+            if "out" not in r and not r.get("hang"):
+                harness_failures.append({"case": c, "res": r})
+            pr = PROBES[c["probe"]]
+            plits.append(vpair(vZ(pr["kind"]), vbool(auto), vbool(r.get("const", True)), vlist(r.get("shape", [3, 3])),
+                               vlist(r.get("nshape", [])), vZ(r.get("size", 9)), vZ(OUT_CODE[oc]), vbool(bool(r.get("dense")))))
             pmeta.append((auto, i))
-            phist[(kind, "auto" if auto else "noauto", oc)] = phist.get((kind, "auto" if auto else "noauto", oc), 0) + 1
-    pcodes = build.judge("c07_probes", "From Verif Require Import C07Judge.", "probe_case", "judge_probe", plits)
+            tag = (c["probe"], "auto" if auto else "noauto", oc + ("/dense" if r.get("dense") else ""))
+            phist[tag] = phist.get(tag, 0) + 1
+    pcodes = build.judge("c07_probes", IMPORTS, "probe_case", "judge_probe", plits)
     for k, code in pcodes:
         auto, i = pmeta[k]
         c, r = probes[i], gens[auto][1][i]
         viol.append({"property": "C07", "op": "probe:" + c["probe"], "kind": "value",
-                     "clause": {11: "coercion_not_refused", 12: "auto_densify_wrong", 13: "dense_mix_rule", 14: "to_scalar_rule",
-                                15: "probe_silently_wrong"}.get(code, "probe") + ":" + c["probe"],
+                     "clause": CLAUSE_OF_CODE.get(code, "probe") + ":" + c["probe"],
                      "what": CODE_TEXT.get(code, str(code)), "case": dict(c, auto=auto), "impl": r,
-                     "replay_py": f"# probe {c['probe']} fill={c['fill']} fmt={c['fmt']} SPARSE_AUTO_DENSIFY={'1' if auto else 'unset'}: "
-                                  f"see tools/props/c07.py:PROBES"})
+                     "replay_py": replay_line(c, auto, probe=True)})
+    if harness_failures:
+        viol.append({"property": "C07", "op": "harness", "kind": "representation", "clause": "harness_failure",
+                     "what": "the worker function itself failed on some cases", "case": harness_failures[0]["case"],
+                     "impl": harness_failures[0]["res"], "count": len(harness_failures), "replay_py": "# see case"})
     # ---- coverage
     cov = report["coverage"]
-    n = len(lits) + len(plits)
-    cov["evaluations"] = n
+    cov["evaluations"] = len(lits) + len(plits)
     exercised_ops = sorted({c["op"] for c in cases})
     cov["distinct_nontrivial"] = len({(c["recipe"], c["fill"], c["fill2"], c["fmt"], c["fmt2"]) for c in cases
-                                      if c["fill"] not in ("z", "iz", "F")}) + len(probes)
+                                      if not is_baseline(c)}) + len(probes)
     cov["rule"] = ("operation x fill matrix: every recipe (one call of a public operation named in the generated site table) x "
                    "fills {0,-0.0,3,NaN,+inf,-inf float64; 0,3 int64; False,True} x formats COO/GCXS/DOK (second operand: same fill, "
                    "the dtype's zero, another non-zero fill, another format) x SPARSE_AUTO_DENSIFY in {unset,1} (separate interpreter "
-                   "generations); plus coercion / dense-mix / scalar-conversion probes; distinct = distinct cells with a non-zero first fill")
+                   "generations; quick tier: the second generation repeats the fills {0,3,NaN,True}); plus coercion / dense-mix / "
+                   "scalar-conversion probes in both generations; distinct = distinct non-baseline cells + probes")
+    cov["cases_per_generation"] = {"unset": len(gen_cases[False]), "1": len(gen_cases[True]), "probes": len(probes)}
     cov["operations_in_table"] = len(ops)
     cov["public_operations_in_table"] = sum(1 for r in ops.values() if r["public"])
-    cov["operations_exercised"] = len([o for o in exercised_ops if o in ops])
-    cov["recipe_ops_not_in_table"] = [o for o in exercised_ops if o not in ops]
+    cov["operations_exercised"] = len(exercised_ops)
+    cov["recipes_without_method_for_format"] = skipped
     cov["public_ops_without_recipe"] = sorted(o for o, r in ops.items() if r["public"] and o not in exercised_ops)
-    cov["not_exercised_baseline_fails"] = {f"{k[0]}/{k[1]}/{k[2]}": v for k, v in sorted(not_exercised.items())}
+    cov["not_exercised_baseline_fails"] = {f"{k[0]}@{k[1]}:{k[2]}": v for k, v in sorted(not_exercised.items())}
     cov["differential_only"] = sorted(nm for nm, rec in RECIPES.items() if rec["approx"])
+    cov["model_must_raise_cases"] = must_raise
     cov["branch_tags"] = {f"{k[0]}:{k[1]}": v for k, v in sorted(hist.items())}
     cov["probe_tags"] = {f"{k[0]}/{k[1]}/{k[2]}": v for k, v in sorted(phist.items())}
-    zs = sum(1 for auto in (False, True) for r in gens[auto][0] if r and r.get("match") == 2)
-    cov["right_up_to_sign_of_zero"] = zs
+    cov["right_up_to_sign_of_zero"] = sum(1 for auto in (False, True) for r in gens[auto][0] if r and r.get("match") == 2)
     cov["samples"] = [dict(case=cases[i], impl=gens[False][0][i]) for i in (0, len(cases) // 3, len(cases) - 1)]
     return viol
 
 
-def replay_line(c, auto):
-    return (f"import os; {'os.environ[chr(83)+chr(80)+chr(65)+chr(82)+chr(83)+chr(69)+chr(95)+chr(65)+chr(85)+chr(84)+chr(79)+chr(95)+chr(68)+chr(69)+chr(78)+chr(83)+chr(73)+chr(70)+chr(89)]=chr(49); ' if auto else ''}"
-            f"import sys; sys.path.insert(0, '/verif/tools'); import props.c07 as m; "
-            f"print(m.impl_case({dict(c, auto=auto)!r}))")
+def replay_line(c, auto, probe=False):
+    env = "import os; os.environ['SPARSE_AUTO_DENSIFY']='1'; " if auto else ""
+    fn = "impl_probe" if probe else "impl_case"
+    return (f"{env}import sys; sys.path.insert(0, '/verif/tools'); import props.c07 as m; "
+            f"print(m.{fn}({dict(c, auto=auto)!r}))")
 
 
 def replay(path):
